@@ -53,32 +53,22 @@ theorem c15_old_nodes_untouched (root root' : PTree) (n n' : Nat) (envQ envC : N
 def consistentStep (s : Step) : Prop :=
   ∀ a b, a ∈ stepAttrs s → b ∈ stepAttrs s → a.1 = b.1 → a.2.1 = b.2.1 → a.2.2 = b.2.2
 
-/- FALSE as stated (`c15_created_is_selected`, and with it `c15_idempotent`); the original statements:
-
-theorem c15_created_is_selected (root root' : PTree) (n n' : Nat) (env : NsEnv) (ctx : List Nat)
-    (p : Path) (r : XNode) (hc : ∀ s ∈ p.steps, consistentStep s)
-    (hctx : tagPath root ctx = true) (hids : ∀ i ∈ Clone.idsOf root, i < n)
-    (h : fetchOrCreate root n env env ctx [p] = .ok (root', r, n')) :
-    evaluate root' env ctx [p] = .ok [r]
-
-theorem c15_idempotent (root root' : PTree) (n n' : Nat) (env : NsEnv) (ctx : List Nat)
-    (p : Path) (r : XNode) (hc : ∀ s ∈ p.steps, consistentStep s)
-    (hctx : tagPath root ctx = true) (hids : ∀ i ∈ Clone.idsOf root, i < n)
-    (h : fetchOrCreate root n env env ctx [p] = .ok (root', r, n')) :
-    fetchOrCreate root' n' env env ctx [p] = .ok (root', r, n')
-
--- FALSE: root = <r/> (`.tag 0 "" "r" [] []`), n = 1, ctx = [], and
---  (1) env = [], p = `x:a` (`.name (some "x") "a"`, no predicates): a step without candidates never looks
---      at its prefix, the call creates `<a/>` (no namespace) and returns `.at [0]`; the re-query now has a
---      candidate and raises `unknownPrefix "x"`.  Same for `a[@x:k="v"]`: the attribute `k` is created
---      without namespace, the re-query raises.
---  (2) env = [("x","u"), ("y","u")], p = `a[@x:k="1" and @y:k="2"]`: `consistentStep` holds (the
---      prefixes differ), both equalities set the attribute `{u}k`, the later one wins, the re-query
---      yields `[]`, and a second call appends a second `<a/>` (returns `.at [1]`).
--- What is missing are hypotheses of the statement (the algorithm is as the library's): every prefix in
--- the path is bound in `env` (`stepPrefixesBound`), and the attribute equalities are consistent after
--- prefix resolution (`consistentStepIn`, which implies `consistentStep`: `consistentStep_of_in`).
--- `hctx` and `hids` are not needed.
+/- History of `c15_created_is_selected` / `c15_idempotent`, with root = <r/> (`.tag 0 "" "r" [] []`), n = 1,
+   ctx = []:
+--  (1) before the library checked prefixes up front, env = [], p = `x:a` (`.name (some "x") "a"`, no
+--      predicates) was a counterexample to both: a step without candidates never looks at its prefix, the
+--      call created `<a/>` (no namespace) and returned `.at [0]`; the re-query then had a candidate and
+--      raised `unknownPrefix "x"`.  Same for `a[@x:k="v"]`: the attribute `k` was created without
+--      namespace, the re-query raised.  That made the hypothesis `stepPrefixesBound` (every prefix of the
+--      path is bound in `env`) necessary; the `_partial` theorems below still carry it.  Now such a call is
+--      rejected before anything is created (`c15_unbound_prefix_rejected`), and the hypothesis is derived
+--      from the success of the call (`stepPrefixesBound_of_checked`).
+--  (2) env = [("x","u"), ("y","u")], p = `a[@x:k="1" and @y:k="2"]` is still a counterexample when the
+--      attribute equalities are only required to be consistent per (prefix, local name)
+--      (`consistentStep`, which holds here: the prefixes differ): both equalities set the attribute `{u}k`,
+--      the later one wins, the re-query yields `[]`, and a second call appends a second `<a/>` (returns
+--      `.at [1]`).  Hence the hypothesis `consistentStepIn`: the attribute equalities are consistent after
+--      prefix resolution (it implies `consistentStep`: `consistentStep_of_in`).
 -/
 
 /-- `consistentStepIn` (attribute names compared after prefix resolution) is the stronger notion -/
@@ -102,6 +92,86 @@ theorem c15_idempotent_partial (root root' : PTree) (n n' : Nat) (env : NsEnv) (
     fetchOrCreate root' n' env env ctx [p] = .ok (root', r, n') :=
   c15_found root' n' env env ctx [p] r (locatable_of_ok h)
     (fetchOrCreate_selected root root' n n' env ctx p r hp hc h)
+
+/-- a prefix that the mapping does not bind is reported before anything is created: when the query finds
+    nothing and some step names an unbound prefix (name test or derived attribute), the call ends with an
+    evaluation error - and an error returns no tree, the tree stays as it is -/
+theorem c15_unbound_prefix_rejected (root : PTree) (n : Nat) (envQ envC : NsEnv) (ctx : List Nat) (p : Path)
+    (hl : locatable [p] = true) (hq : evaluate root envQ ctx [p] = .ok [])
+    (hu : p.steps.flatMap (unboundPrefixes envC) ≠ []) :
+    ∃ q, fetchOrCreate root n envQ envC ctx [p] = .error (.eval (.unknownPrefix q)) :=
+  fetchOrCreate_unbound root n envQ envC ctx p hl hq hu
+
+/- FALSE as stated (`c15_created_is_selected`, and with it `c15_idempotent`), but only for syntax trees the
+   parser never produces; the statements:
+
+theorem c15_created_is_selected (root root' : PTree) (n n' : Nat) (env : NsEnv) (ctx : List Nat)
+    (p : Path) (r : XNode) (hc : ∀ s ∈ p.steps, consistentStepIn env s)
+    (h : fetchOrCreate root n env env ctx [p] = .ok (root', r, n')) :
+    evaluate root' env ctx [p] = .ok [r]
+
+theorem c15_idempotent (root root' : PTree) (n n' : Nat) (env : NsEnv) (ctx : List Nat)
+    (p : Path) (r : XNode) (hc : ∀ s ∈ p.steps, consistentStepIn env s)
+    (h : fetchOrCreate root n env env ctx [p] = .ok (root', r, n')) :
+    fetchOrCreate root' n' env env ctx [p] = .ok (root', r, n')
+
+-- FALSE: a prefix that is present but empty (`some []`) passes the up-front check, which skips empty
+-- prefixes (`if prefix and prefix not in namespaces`), while the query looks the empty prefix up
+-- (`ensure_prefix`, `namespaces.get(prefix)`).  With root = <r/> (`.tag 0 "" "r" [] []`), n = 1, ctx = []:
+--  (a) env = [], p = `.name (some []) "a"` without predicates: the call creates `<a/>` and returns `.at [0]`,
+--      the re-query raises `unknownPrefix ""`;
+--  (b) env = [("", "u")], p = `a[@k="v"]` with the attribute test `.attrVal (some []) "k"`: the call creates
+--      `<{u}a k="v"/>` (the attribute in no namespace), the re-query looks for `{u}k`, finds nothing, and
+--      a second call appends a second element (returns `.at [1]`).
+-- Both are checked below (`example`s).  The parser takes every prefix from a NAME token, which is never
+-- empty, so no parsed expression contains `some []`; the `_noempty_partial` theorems assume exactly that
+-- (`stepNoEmptyPrefix`, decidable and independent of the mapping).
+-/
+
+/-- counterexample (a) -/
+example :
+    let p : Path := { absolute := false, steps := [{ axis := "child", test := .name (some []) "a".toList, preds := [] }] }
+    let t' : PTree := .tag 0 "" "r" [] [.tag 1 "" "a" [] []]
+    fetchOrCreate (.tag 0 "" "r" [] []) 1 [] [] [] [p] = .ok (t', .at [0], 2) ∧
+      evaluate t' [] [] [p] = .error (.unknownPrefix "") := by
+  exact ⟨rfl, rfl⟩
+
+/-- counterexample (b) -/
+example :
+    let e : Expr := .binop "=" (.attrVal (some []) "k".toList) (.str "v".toList)
+    let p : Path := { absolute := false, steps := [{ axis := "child", test := .name none "a".toList, preds := [e] }] }
+    let a (i : Nat) : PTree := .tag i "u" "a" [{ ns := "", name := "k", value := "v".toList }] []
+    let env : NsEnv := [("", "u")]
+    (∀ s ∈ p.steps, consistentStepIn env s) ∧
+    fetchOrCreate (.tag 0 "" "r" [] []) 1 env env [] [p] = .ok (.tag 0 "" "r" [] [a 1], .at [0], 2) ∧
+      evaluate (.tag 0 "" "r" [] [a 1]) env [] [p] = .ok [] ∧
+      fetchOrCreate (.tag 0 "" "r" [] [a 1]) 2 env env [] [p] = .ok (.tag 0 "" "r" [] [a 1, a 2], .at [1], 3) := by
+  refine ⟨?_, rfl, rfl, rfl⟩
+  intro s hs a b ha hb _ _
+  simp only [List.mem_singleton] at hs
+  subst hs
+  simp [stepAttrs, derivedAttrs] at ha hb
+  rw [ha, hb]
+
+/-- with that check in place, a successful call needs no hypothesis on the bindings any more: after it the
+    same expression selects exactly the returned node, provided the attribute equalities are consistent as
+    expanded names (the property's "non-contradictory attribute-equality predicates") and no prefix is
+    present but empty (true of every parsed expression) -/
+theorem c15_created_is_selected_noempty_partial (root root' : PTree) (n n' : Nat) (env : NsEnv)
+    (ctx : List Nat) (p : Path) (r : XNode) (hne : ∀ s ∈ p.steps, stepNoEmptyPrefix s = true)
+    (hc : ∀ s ∈ p.steps, consistentStepIn env s)
+    (h : fetchOrCreate root n env env ctx [p] = .ok (root', r, n')) :
+    evaluate root' env ctx [p] = .ok [r] :=
+  fetchOrCreate_selected_checked root root' n n' env ctx p r hne hc h
+
+/-- hence a second call returns the same node and changes nothing -/
+theorem c15_idempotent_noempty_partial (root root' : PTree) (n n' : Nat) (env : NsEnv) (ctx : List Nat)
+    (p : Path) (r : XNode) (hne : ∀ s ∈ p.steps, stepNoEmptyPrefix s = true)
+    (hc : ∀ s ∈ p.steps, consistentStepIn env s)
+    (h : fetchOrCreate root n env env ctx [p] = .ok (root', r, n')) :
+    fetchOrCreate root' n' env env ctx [p] = .ok (root', r, n') :=
+  c15_found root' n' env env ctx [p] r (locatable_of_ok h)
+    (fetchOrCreate_selected_checked root root' n n' env ctx p r hne hc h)
 
 /-- non-vacuity: `a/b[@k="v"]` below `<r><a/></r>` creates `<b k="v"/>` under the existing `a` -/
 example : (fetchOrCreate (.tag 0 "" "r" [] [.tag 1 "" "a" [] []]) 2 [("", "")] [("", "")] []
